@@ -95,6 +95,8 @@ def gen_op(rng, sim, weights):
             sim.next_tlid += cnt
             sim.n += cnt
         return ["add", ts, pos]
+    if k == "buffering":
+        return ["buffering", rng.randrange(4)]
     if k == "clear":
         sim.n, sim.tlids = 0, []
         return ["clear"]
@@ -165,7 +167,7 @@ WEIGHTS = {
                   ("seek", 1), ("deliver", 5), ("atf", 1), ("tick", 0.5), ("save", 0.5), ("load", 0.5)],
     "schedule": [("add", 4), ("clear", 0.5), ("move", 1), ("remove", 2), ("shuffle", 0.5), ("setmode", 2),
                  ("play", 6), ("pause", 3), ("resume", 3), ("stop", 3), ("next", 5), ("previous", 4),
-                 ("seek", 4), ("deliver", 14), ("atf", 4), ("eos", 1), ("tick", 2), ("getnext", 0.5), ("geteot", 0.5),
+                 ("seek", 4), ("deliver", 14), ("atf", 4), ("eos", 1), ("tick", 2), ("buffering", 1.5), ("getnext", 0.5), ("geteot", 0.5),
                  ("getprev", 0.5), ("index", 0.5), ("save", 0.3), ("load", 0.3)],
     "faults": [("add", 4), ("clear", 0.3), ("remove", 1.5), ("setmode", 3), ("play", 7), ("pause", 1),
                ("resume", 1), ("stop", 2), ("next", 6), ("previous", 6), ("seek", 2), ("deliver", 10),
@@ -280,7 +282,8 @@ def generate_and_run(rng, profile, max_client_ops=None):
             for _ in range(rng.randint(2, 5)):
                 if rng.random() < 0.8:
                     do(rng.choice([["previous"], ["next"], ["atf"], ["play", None], ["seek", 6000],
-                                   ["seek", 0], ["previous"], ["next"]]))
+                                   ["seek", 0], ["previous"], ["next"], ["play", sim.some_tlid(rng, 0.9)],
+                                   ["play", sim.some_tlid(rng, 0.9)]]))
                 else:
                     do(gen_op(rng, sim, weights))
                 if rng.random() < 0.5:
